@@ -362,6 +362,25 @@ func (s *Sim) afterOp() {
 	s.checkKernel()
 	if !s.plan.Concurrent {
 		s.checkQuiescent()
+	} else if !s.stop && !s.k.HasRunnable() {
+		s.checkDeadlock()
+	}
+}
+
+// checkDeadlock: nothing is runnable (any schedule): a task still blocked on a
+// lock can never proceed - a lock cycle, or a lock held by a task that waits for
+// something else.
+//
+//go:norace
+func (s *Sim) checkDeadlock() {
+	for _, t := range s.k.Blocked(kern.BlockedLock) {
+		fn := ""
+		for _, o := range kern.Owners(t.WaitLock()) {
+			fn += o.Name + "(" + o.State().String() + " @" + o.Site + ") "
+		}
+		s.vio("C06", "deadlock", "", fmt.Sprintf("%s is blocked on a lock and nothing is runnable: held by %s", t.Name, fn))
+		s.stop = true
+		return
 	}
 }
 
@@ -814,6 +833,12 @@ func (s *Sim) startCall(i int, o Op) {
 	if c.Age > 0 {
 		s.env.Fired["stale_picker_pick"]++
 	}
+	if s.plan.Cfg.RR && o.B == MBind {
+		s.res.Count("rr_bind_pick_started", 1)
+	}
+	if o.B == MBound || o.B == MUnbind {
+		s.res.Count("keyed_pick_started", 1)
+	}
 	c.tag = &TaskTag{Op: i, Phase: PhPick, Call: c.ID}
 	s.calls = append(s.calls, c)
 	c.task = s.k.Spawn(fmt.Sprintf("call%d", c.ID), 0, c.tag, func() { s.callBody(c) })
@@ -1002,26 +1027,6 @@ func (s *Sim) heal() {
 	if s.stop {
 		return
 	}
-	// cancel pending round-robin picks, complete all calls
-	for _, c := range s.calls {
-		if c.Invoked && !c.Returned && c.cancel != nil && !c.WasCancelled {
-			c.WasCancelled, c.CancelledAt = true, s.k.Elapsed()
-			c.cancel()
-		}
-	}
-	s.k.Bump()
-	s.k.Quiesce()
-	s.afterOp()
-	for _, c := range s.calls {
-		if s.stop {
-			return
-		}
-		if c.InFlight && !c.waiter.IsSet() {
-			s.finishCall(i, c, OutAppErr, nil)
-			s.k.Quiesce()
-			s.afterOp()
-		}
-	}
 	// drive every live connection to READY
 	for round := 0; round < 6 && !s.stop; round++ {
 		progress := false
@@ -1050,6 +1055,47 @@ func (s *Sim) heal() {
 		}
 		if !progress {
 			break
+		}
+	}
+	if s.stop {
+		return
+	}
+	// Every pool connection is READY and every report has been delivered: a
+	// round-robin BIND pick that still waits has lost its wake-up (C06/C09).
+	allReady := true
+	for _, sc := range s.env.Conns {
+		if !sc.Removed && !sc.ShutdownSent && sc.Truth != connectivity.Ready {
+			allReady = false
+		}
+	}
+	now := s.k.Elapsed()
+	for _, c := range s.calls {
+		if allReady && c.Invoked && !c.Returned && c.task != nil && c.task.State() == kern.BlockedSelect && !c.CtxEnded(now) {
+			msg := fmt.Sprintf("round-robin BIND call %d still waits although every pool connection is READY and all reports were delivered", c.ID)
+			s.vio("C06", "rr-wait-although-ready", "heal", msg)
+			s.vio("C09", "rr-not-handed-when-ready", "heal", msg)
+			s.stop = true
+			return
+		}
+	}
+	// cancel pending round-robin picks, complete all calls
+	for _, c := range s.calls {
+		if c.Invoked && !c.Returned && c.cancel != nil && !c.WasCancelled {
+			c.WasCancelled, c.CancelledAt = true, s.k.Elapsed()
+			c.cancel()
+		}
+	}
+	s.k.Bump()
+	s.k.Quiesce()
+	s.afterOp()
+	for _, c := range s.calls {
+		if s.stop {
+			return
+		}
+		if c.InFlight && !c.waiter.IsSet() {
+			s.finishCall(i, c, OutAppErr, nil)
+			s.k.Quiesce()
+			s.afterOp()
 		}
 	}
 	if s.stop || len(s.env.Pubs) == 0 {
